@@ -77,7 +77,9 @@ Inductive stexpr :=
 
 (* which repairs are applied *)
 Record variant := { v_tu_fixed : bool;     (* finding 2: take_until trigger_receiver::set_done destroys triggerOp_ *)
-                    v_si_fixed : bool }.   (* finding 9: stop_immediately next-op start() keeps stream_ in a local *)
+                    v_si_fixed : bool;     (* finding 9: stop_immediately next-op start() keeps stream_ in a local *)
+                    v_sierr_fixed : bool;  (* stop_immediately's cleanup receiver_wrapper::set_error takes the error by value *)
+                    v_te_fixed : bool }.   (* type_erased_stream's receiver wrappers copy their members before destroying their op *)
 
 (* ---- observable events, compared one by one with the real library's run ------------------------ *)
 Inductive tev :=
@@ -91,7 +93,11 @@ Inductive tev :=
 | TPred (p : pred) (x : Z)                     (* filter predicate *)
 | TFeed (acc x : Z)                            (* the consumer's function got element x (acc = 0 for for_each) *)
 | TFire                                        (* the armed root token requested stop inside a callback registration *)
-| TUaf.                                        (* stop_immediately's start() touched its destroyed operation (finding 9) *)
+| TUaf (site : nat).   (* use of a destroyed object.  0: stop_immediately's start() goes on through its destroyed
+                          operation (finding 9); 1: stop_immediately's cleanup receiver_wrapper::set_error forwards an
+                          error reference into the cleanup operation it has just destroyed; 2: type_erased_stream's
+                          next_receiver_wrapper / cleanup_receiver_wrapper read their own members after
+                          deactivate_union_member destroyed the operation state that contains them *)
 
 Inductive opk := KN | KC.     (* which of the parent's operations completed: a next / a cleanup *)
 
@@ -215,8 +221,10 @@ Record ops := {
   o_stop : sst -> res;
   o_leaf : sst -> tgt -> outcome -> res * bool;    (* bool: the leaf was found and was outstanding *)
   o_flush : sst -> res;
+  o_arm : sst -> sst;        (* the root token gets armed: nodes that remember what that token answers take note *)
   o_budget : sst -> nat;     (* bound on the number of further values that can still complete inline *)
   o_owner : option nat;      (* the scripted source whose tracked cleanup op-state IS this stream's cleanup operation *)
+  o_cerr_ref : bool;         (* the cleanup operation passes its error as a reference to one of its own members *)
   o_init : sst
 }.
 
@@ -234,7 +242,8 @@ Definition with_hist (I : ops) : ops :=
      o_stop := fun st => hist_add (o_stop I st);
      o_leaf := fun st tg o => let (r, hit) := o_leaf I st tg o in (hist_add r, hit);
      o_flush := fun st => hist_add (o_flush I st);
-     o_budget := o_budget I; o_owner := o_owner I; o_init := o_init I |}.
+     o_arm := o_arm I;
+     o_budget := o_budget I; o_owner := o_owner I; o_cerr_ref := o_cerr_ref I; o_init := o_init I |}.
 
 (* ---- sources ----------------------------------------------------------------------------------------- *)
 (* range_stream.hpp:93-99 next completes inline, ignores stop; cleanup = just_done() *)
@@ -250,8 +259,10 @@ Definition range_ops (a b : Z) : ops :=
      o_stop := idle;
      o_leaf := fun st _ _ => (idle st, false);
      o_flush := idle;
+     o_arm := fun st => st;
      o_budget := fun st => match st with Node _ (BRange pos) => Z.to_nat (b - pos) | _ => O end;
      o_owner := None;
+     o_cerr_ref := false;
      o_init := Node [] (BRange a) |}.
 
 (* single.hpp:44-78,125-130: the first next-operation gets the sender, later ones complete with done *)
@@ -267,8 +278,10 @@ Definition single_ops (v : Z) : ops :=
      o_stop := idle;
      o_leaf := fun st _ _ => (idle st, false);
      o_flush := idle;
+     o_arm := fun st => st;
      o_budget := fun st => match st with Node _ (BSingle false) => 1%nat | _ => O end;
      o_owner := None;
+     o_cerr_ref := false;
      o_init := Node [] (BSingle false) |}.
 
 (* never.hpp:44-80: start() only registers the stop callback, which completes with done *)
@@ -288,8 +301,10 @@ Definition never_ops : ops :=
        end;
      o_leaf := fun st _ _ => (idle st, false);
      o_flush := idle;
+     o_arm := fun st => st;
      o_budget := fun _ => O;
      o_owner := None;
+     o_cerr_ref := false;
      o_init := Node [] (BNever false false) |}.
 
 (* harness/k2s.hpp k2s::src *)
@@ -328,8 +343,10 @@ Definition src_ops (id : nat) (reactive : bool) : ops :=
        | _, _ => (idle st, false)
        end;
      o_flush := idle;
+     o_arm := fun st => st;
      o_budget := fun _ => O;
      o_owner := Some id;
+     o_cerr_ref := false;
      o_init := Node [] (BSrc src0) |}.
 
 (* ---- transform_stream = next_adapt_stream(s, then(_, ref(f))) ------------------------------------- *)
@@ -357,8 +374,10 @@ Definition tr_ops (f : fn) (I : ops) : ops :=
        | _ => (idle st, false)
        end;
      o_flush := fun st => match st with Node h (BUn KTr si) => tr_wrap f h (o_flush I si) | _ => idle st end;
+     o_arm := fun st => match st with Node h (BUn KTr si) => Node h (BUn KTr (o_arm I si)) | _ => st end;
      o_budget := fun st => match st with Node _ (BUn _ si) => o_budget I si | _ => O end;
      o_owner := o_owner I;
+     o_cerr_ref := o_cerr_ref I;
      o_init := Node [] (BUn KTr (o_init I)) |}.
 
 (* ---- filter_stream.hpp:70-96: a rejected value destroys the inner next-op and starts a new one --- *)
@@ -404,20 +423,32 @@ Definition fi_ops (p : pred) (I : ops) : ops :=
        | _ => (idle st, false)
        end;
      o_flush := fun st => match st with Node h (BUn (KFi fs) si) => fi_wrap p I h fs (o_flush I si) | _ => idle st end;
+     o_arm := fun st => match st with
+                     | Node h (BUn (KFi fs) si) =>
+                         Node h (BUn (KFi (if fi_stopped fs then fs else {| fi_stopped := false; fi_armed := true |})) (o_arm I si))
+                     | _ => st
+                     end;
      o_budget := fun st => match st with Node _ (BUn _ si) => o_budget I si | _ => O end;
      o_owner := o_owner I;
+     o_cerr_ref := o_cerr_ref I;
      o_init := Node [] (BUn (KFi {| fi_stopped := false; fi_armed := false |}) (o_init I)) |}.
 
 (* ---- stop_immediately.hpp --------------------------------------------------------------------------- *)
 Definition si_node (h : list outcome) (s : sist) (si : sst) : sst := Node h (BUn (KSI s) si).
 
 (* cleanup_sender::receiver_wrapper::set_done/set_error (l.355-381): destroy cleanupOp_, prefer nextError_ *)
-Definition si_cleanup_done (I : ops) h (s : sist) (si : sst) (ev : list tev) (oc : outcome) (fired : bool) : res :=
-  mk (si_node h (si_set_err s None) si) (ev ++ opdel (o_owner I))
+Definition si_cleanup_done (vr : variant) (I : ops) h (s : sist) (si : sst) (ev : list tev) (oc : outcome) (fired : bool) : res :=
+  (* set_error(Error&& error) l.367-380: cleanupOp_.destruct() first, then the reference is forwarded; if it
+     points into the destroyed cleanup operation (take_until passes std::move(sourceError_)) it dangles *)
+  let uaf := match oc, si_err s with
+             | OErr _, None => if o_cerr_ref I && negb (v_sierr_fixed vr) then [TUaf 1] else []
+             | _, _ => []
+             end in
+  mk (si_node h (si_set_err s None) si) (ev ++ opdel (o_owner I) ++ uaf)
      (Some (KC, match si_err s with Some e => OErr e | None => clean_outcome oc end)) fired.
 
 (* next_receiver::handle_signal (l.153-190) for the source's next completing with o *)
-Definition si_signal (I : ops) h (s : sist) (si : sst) (ev : list tev) (o : outcome) (fired : bool) : res :=
+Definition si_signal (vr : variant) (I : ops) h (s : sist) (si : sst) (ev : list tev) (o : outcome) (fired : bool) : res :=
   let err' := match o with OErr e => Some e | _ => si_err s end in
   match si_state s with
   | SActive =>
@@ -433,16 +464,19 @@ Definition si_signal (I : ops) h (s : sist) (si : sst) (ev : list tev) (o : outc
       let s' := si_set_incl (si_set_err s err') true in
       let rc := o_clean I si in
       match r_out rc with
-      | Some (KC, oc) => si_cleanup_done I h s' (r_st rc) (ev ++ r_ev rc) oc fired
+      | Some (KC, oc) => si_cleanup_done vr I h s' (r_st rc) (ev ++ r_ev rc) oc fired
       | _ => mk (si_node h s' (r_st rc)) (ev ++ r_ev rc) None fired
       end
-  | _ => mk (si_node h s si) ev None fired
+  | _ =>
+      (* not reachable (no next of the source is active in these states; the real code asserts): the
+         signal is passed on *)
+      mk (si_node h s si) ev (Some (KN, o)) fired
   end.
 
-Definition si_inner (I : ops) h (s : sist) (r : res) : res :=
+Definition si_inner (vr : variant) (I : ops) h (s : sist) (r : res) : res :=
   match r_out r with
-  | Some (KN, o) => si_signal I h s (r_st r) (r_ev r) o (r_fired r)
-  | Some (KC, oc) => si_cleanup_done I h s (r_st r) (r_ev r) oc (r_fired r)
+  | Some (KN, o) => si_signal vr I h s (r_st r) (r_ev r) o (r_fired r)
+  | Some (KC, oc) => si_cleanup_done vr I h s (r_st r) (r_ev r) oc (r_fired r)
   | None => mk (si_node h s (r_st r)) (r_ev r) None (r_fired r)
   end.
 
@@ -458,7 +492,7 @@ Definition si_ops (vr : variant) (I : ops) : ops :=
                 yet), set_done; start() continues with start(nextOp_) only after that (deferred) *)
              mk (si_node h (si_set_cut (si_set_defer (si_set_own (si_set_state s SStopped) true) true) true) si)
                 [TFire] (Some (KN, ODone)) true
-           else si_inner I h (si_set_state s SActive) (o_next I si (env_own (si_own s)))
+           else si_inner vr I h (si_set_state s SActive) (o_next I si (env_own (si_own s)))
        | _ => idle st
        end;
      o_clean := fun st =>
@@ -467,7 +501,7 @@ Definition si_ops (vr : variant) (I : ops) : ops :=
            (* l.395-423 *)
            match si_state s with
            | SStopped => mk (si_node h (si_set_state s SCleanupReq) si) [] None false
-           | SCompleted => si_inner I h (si_set_incl s true) (o_clean I si)
+           | SCompleted => si_inner vr I h (si_set_incl s true) (o_clean I si)
            | SNotStarted => mk st [] (Some (KC, ODone)) false
            | _ => idle st
            end
@@ -480,7 +514,7 @@ Definition si_ops (vr : variant) (I : ops) : ops :=
            match si_state s with
            | SActive =>
                let s1 := si_set_cut (si_set_own (si_set_state s SStopped) true) true in
-               let r1 := si_inner I h s1 (o_stop I si) in
+               let r1 := si_inner vr I h s1 (o_stop I si) in
                mk (r_st r1) (r_ev r1) (Some (KN, ODone)) false
            | _ => idle st
            end
@@ -488,46 +522,49 @@ Definition si_ops (vr : variant) (I : ops) : ops :=
        end;
      o_leaf := fun st tg o =>
        match st with
-       | Node h (BUn (KSI s) si) => let (r, hit) := o_leaf I si tg o in (si_inner I h s r, hit)
+       | Node h (BUn (KSI s) si) => let (r, hit) := o_leaf I si tg o in (si_inner vr I h s r, hit)
        | _ => (idle st, false)
        end;
      o_flush := fun st =>
        match st with
        | Node h (BUn (KSI s) si) =>
-           let r1 := si_inner I h s (o_flush I si) in
+           let r1 := si_inner vr I h s (o_flush I si) in
            match r_st r1 with
            | Node h1 (BUn (KSI s1) si1) =>
                if si_defer s1 then
                  (* l.267 start(stream_.nextOp_.get()) after the callback delivered done; as written the
                     operation (and with it the reference member stream_) is already destroyed *)
-                 let r2 := si_inner I h1 (si_set_defer s1 false) (o_next I si1 (env_own (si_own s1))) in
-                 mk (r_st r2) (r_ev r1 ++ (if v_si_fixed vr then [] else [TUaf]) ++ r_ev r2)
+                 let r2 := si_inner vr I h1 (si_set_defer s1 false) (o_next I si1 (env_own (si_own s1))) in
+                 mk (r_st r2) (r_ev r1 ++ (if v_si_fixed vr then [] else [TUaf 0]) ++ r_ev r2)
                     (match r_out r2 with Some x => Some x | None => r_out r1 end) false
                else r1
            | _ => r1
            end
        | _ => idle st
        end;
+     o_arm := fun st => st;
      o_budget := fun st => match st with Node _ (BUn _ si) => o_budget I si | _ => O end;
      o_owner := None;
+     o_cerr_ref := false;
      o_init := Node [] (BUn (KSI si0) (o_init I)) |}.
 
 (* ---- type_erased_stream.hpp -------------------------------------------------------------------------- *)
 Definition te_node (h : list outcome) (t : test) (si : sst) : sst := Node h (BUn (KTE t) si).
 
-Definition te_inner (I : ops) h (t : test) (r : res) : res :=
+Definition te_inner (vr : variant) (I : ops) h (t : test) (r : res) : res :=
+  let uaf := if v_te_fixed vr then [] else [TUaf 2] in
   match r_out r with
   | Some (KN, o) =>
       (* _next_receiver::set_* l.137-153: deliver iff complete() brings refCount_ to 0 *)
       let ref' := Nat.pred (te_ref t) in
       if Nat.eqb ref' 0 then
-        mk (te_node h {| te_out := false; te_ref := 0; te_own := te_own t |} (r_st r)) (r_ev r) (Some (KN, o)) (r_fired r)
-      else mk (te_node h {| te_out := te_out t; te_ref := ref'; te_own := te_own t |} (r_st r)) (r_ev r) None (r_fired r)
-  | Some (KC, oc) => mk (te_node h t (r_st r)) (r_ev r ++ opdel (o_owner I)) (Some (KC, clean_outcome oc)) (r_fired r)
+        mk (te_node h {| te_out := false; te_ref := 0; te_own := te_own t |} (r_st r)) (r_ev r ++ uaf) (Some (KN, o)) (r_fired r)
+      else mk (te_node h {| te_out := te_out t; te_ref := ref'; te_own := te_own t |} (r_st r)) (r_ev r ++ uaf) None (r_fired r)
+  | Some (KC, oc) => mk (te_node h t (r_st r)) (r_ev r ++ opdel (o_owner I) ++ uaf) (Some (KC, clean_outcome oc)) (r_fired r)
   | None => mk (te_node h t (r_st r)) (r_ev r) None (r_fired r)
   end.
 
-Definition te_ops (I : ops) : ops :=
+Definition te_ops (vr : variant) (I : ops) : ops :=
   {| o_next := fun st en =>
        match st with
        | Node h (BUn (KTE _) si) =>
@@ -536,11 +573,11 @@ Definition te_ops (I : ops) : ops :=
               start() l.396-402 then starts the inner next with the own token *)
            let own := runs_inline en in
            let t1 := {| te_out := true; te_ref := 1; te_own := own |} in
-           let r1 := te_inner I h t1 (o_next I si (env_own own)) in
+           let r1 := te_inner vr I h t1 (o_next I si (env_own own)) in
            mk (r_st r1) (fire_ev en ++ r_ev r1) (r_out r1) (fires en)
        | _ => idle st
        end;
-     o_clean := fun st => match st with Node h (BUn (KTE t) si) => te_inner I h t (o_clean I si) | _ => idle st end;
+     o_clean := fun st => match st with Node h (BUn (KTE t) si) => te_inner vr I h t (o_clean I si) | _ => idle st end;
      o_stop := fun st =>
        match st with
        | Node h (BUn (KTE t) si) =>
@@ -561,12 +598,14 @@ Definition te_ops (I : ops) : ops :=
        end;
      o_leaf := fun st tg o =>
        match st with
-       | Node h (BUn (KTE t) si) => let (r, hit) := o_leaf I si tg o in (te_inner I h t r, hit)
+       | Node h (BUn (KTE t) si) => let (r, hit) := o_leaf I si tg o in (te_inner vr I h t r, hit)
        | _ => (idle st, false)
        end;
-     o_flush := fun st => match st with Node h (BUn (KTE t) si) => te_inner I h t (o_flush I si) | _ => idle st end;
+     o_flush := fun st => match st with Node h (BUn (KTE t) si) => te_inner vr I h t (o_flush I si) | _ => idle st end;
+     o_arm := fun st => st;
      o_budget := fun st => match st with Node _ (BUn _ si) => o_budget I si | _ => O end;
      o_owner := None;
+     o_cerr_ref := false;
      o_init := Node [] (BUn (KTE te0) (o_init I)) |}.
 
 (* ---- take_until.hpp ---------------------------------------------------------------------------------- *)
@@ -736,8 +775,10 @@ Definition tu_ops (vr : variant) (tid : nat) (treact : bool) (I : ops) : ops :=
            mk (tu_node h u2 (r_st rf)) (ev1 ++ ev2) out1 (r_fired rf)
        | _ => idle st
        end;
+     o_arm := fun st => st;
      o_budget := fun st => match st with Node _ (BUn _ si) => o_budget I si | _ => O end;
      o_owner := None;
+     o_cerr_ref := true;
      o_init := Node [] (BUn (KTU tu0) (o_init I)) |}.
 
 (* ---- pipelines ----------------------------------------------------------------------------------------- *)
@@ -752,7 +793,7 @@ Fixpoint ops_of (vr : variant) (e : stexpr) : ops :=
     | SFilter p s => fi_ops p (ops_of vr s)
     | STakeUntil s tid treact => tu_ops vr tid treact (ops_of vr s)
     | SStopImm s => si_ops vr (ops_of vr s)
-    | STypeErase s => te_ops (ops_of vr s)
+    | STypeErase s => te_ops vr (ops_of vr s)
     end.
 
 (* ---- the consumer: reduce_stream.hpp ------------------------------------------------------------------- *)
@@ -863,14 +904,14 @@ Definition run_ev (vr : variant) (c : cons) (e : stexpr) (rs : rstate) (ev : sev
         end
   | EvArm =>
       if x_stopped rs || x_armed rs then x_push rs [XSkip]
-      else {| x_st := x_st rs; x_acc := x_acc rs; x_ph := x_ph rs; x_stopped := false; x_armed := true;
+      else {| x_st := o_arm I (x_st rs); x_acc := x_acc rs; x_ph := x_ph rs; x_stopped := false; x_armed := true;
               x_roots := x_roots rs; x_tr := x_tr rs |}
   end.
 
 Definition exec (vr : variant) (c : cons) (e : stexpr) (prestop : nat) (script : list sev) : rstate :=
   fold_left (run_ev vr c e) script (run_start vr c e prestop).
 
-Definition fixed : variant := {| v_tu_fixed := true; v_si_fixed := true |}.
-Definition as_written : variant := {| v_tu_fixed := false; v_si_fixed := false |}.
+Definition fixed : variant := {| v_tu_fixed := true; v_si_fixed := true; v_sierr_fixed := true; v_te_fixed := true |}.
+Definition as_written : variant := {| v_tu_fixed := false; v_si_fixed := false; v_sierr_fixed := false; v_te_fixed := false |}.
 
 End SCalc.
